@@ -105,6 +105,22 @@ func TestC04(t *testing.T) {
 	st.Exhaustive = true
 	st.Note("exhaustive: all strings of <= %d tokens over a %d-token alphabet (every reserved word, operator and word form), written blank-separated and concatenated; only the accepted ones have positions to check", maxn, len(gen.TokenAlphabet))
 
+	// (a') long lines and many lines: columns and line numbers beyond 65535
+	if sh == 0 {
+		long := []string{
+			strings.Repeat("a", 70000) + " b | c >d\n",
+			"echo '" + strings.Repeat("x", 66000) + "' $v `c` $((1)) \"q\" # comment\n",
+			"cat <<E\n" + strings.Repeat("x", 65532) + "${a}E\nE\n",
+			"x=" + strings.Repeat("y", 65533) + " a=b c\n",
+			"{\n" + strings.Repeat("a b\n", 66000) + "c | d\n}\n",
+			"echo " + strings.Repeat("é", 65530) + " $v x\n",
+		}
+		for _, src := range long {
+			one(t, src, false, "long")
+		}
+		st.Note("%d sources with lines longer than 65536 characters or more than 65536 lines", len(long))
+	}
+
 	// (b) generated programs with randomised, multi-line layout
 	n := 200000
 	if thorough() {
